@@ -1,6 +1,8 @@
 //! vh – verification harness for jammdb (runtime monitoring).
 //! One sub-command per property plus worker modes; see /verif/DESIGN.md.
 mod c01;
+mod c03;
+mod c08;
 mod exec;
 mod fileck;
 mod gen;
@@ -9,6 +11,7 @@ mod ops;
 mod report;
 mod shape;
 mod shrink;
+mod snap;
 mod util;
 
 use report::{Ctx, Shard};
@@ -65,8 +68,10 @@ fn main() {
     let (cmd, ctx) = parse_args();
     let shard: Shard = match cmd.as_str() {
         "C01" => c01::run(&ctx, c01::Mode::C01),
+        "C03" => c03::run(&ctx),
         "C05" => c01::run(&ctx, c01::Mode::C05),
         "C07" => c01::run(&ctx, c01::Mode::C07),
+        "C08" => c08::run(&ctx),
         _ => usage(),
     };
     shard.write(&ctx.out);
